@@ -1,4 +1,5 @@
 from vf.ch import CH
+from vf.sx.ob import SX
 
 A = "src/biotite/sequence/annotation.py"
 OBLIGATIONS = [
@@ -35,9 +36,9 @@ OBLIGATIONS = [
        bounds="6 bases, 1 location"),
     CH("loc_feature_eq", "c13_annot.py", "ob_loc_feature_eq", cls="S", quick=60,
        functions=[A + ":Location.__eq__"], bounds="positions +-2^40, strand, one defect flag"),
-    CH("loc_feature_hash", "c13_annot.py", "ob_loc_feature_hash", cls="E", quick=90,
-       functions=[A + ":Location.__hash__", A + ":Feature.__eq__", A + ":Feature.__hash__", A + ":Annotation.__contains__"],
-       bounds="positions 0..2, strand"),
+    SX("loc_feature_hash", "sx_c13", "ob_hash", cls="E", quick=300, thorough=900, parts={"quick": 16, "thorough": 16},
+       functions=[A + ":Location.__eq__/__hash__", A + ":Feature.__eq__/__hash__", A + ":Annotation.__contains__/__init__"],
+       bounds="two locations with first/last in {1..3 (thorough 1..5), 2^40}, both strands, 4 defect combinations each (every pair): ==, !=, hash, set membership, Annotation deduplication, independence of location order, key / qualifier sensitivity"),
 ]
 EXPLANATION = "C13: slicing of annotations / annotated sequences against a per-base model; pure-Python integer code explored symbolically by CrossHair."
 ASSUMPTIONS = []
